@@ -27,9 +27,52 @@ type httpReq struct {
 	method string
 	path   string
 	body   string
+	model  string // the request as the proposal model (Fsm/Api.v) sees it
 }
 
 func b64n(n int, rng *cq.Rng) string { return base64.StdEncoding.EncodeToString(rng.Bytes(n)) }
+
+// classify: what the body decodes to under encoding/json's rules for protocol.Event{Event []byte} and
+// protocol.EventsBulk{Events [][]byte}: an object or null decodes (missing/null field = nil, unknown fields are
+// ignored, a string is base64), anything else is a decoding error.  Only POST reaches the decoder.
+func classify(method, path, body string) string {
+	if method != "POST" {
+		return "ROther N"
+	}
+	var probe interface{}
+	if json.Unmarshal([]byte(body), &probe) != nil {
+		return "ROther N"
+	}
+	obj, isObj := probe.(map[string]interface{})
+	if probe != nil && !isObj {
+		return "ROther N"
+	}
+	switch path {
+	case "/events":
+		if v, ok := obj["Event"]; ok && v != nil {
+			if _, str := v.(string); !str {
+				return "ROther N"
+			}
+		}
+		return "RAdd N 0"
+	case "/events/bulk":
+		v, ok := obj["Events"]
+		if !ok || v == nil {
+			return "RBulk N []"
+		}
+		arr, isArr := v.([]interface{})
+		if !isArr {
+			return "ROther N"
+		}
+		for _, e := range arr {
+			if _, str := e.(string); e != nil && !str {
+				return "ROther N"
+			}
+		}
+		return fmt.Sprintf("RBulk N (repeat 0 %d)", len(arr))
+	}
+	return "ROther N"
+}
 
 func genRequests(rng *cq.Rng, n int) []httpReq {
 	apiPaths := []string{"/healthcheck", "/events", "/events/bulk", "/proofs/membership", "/proofs/digest-membership", "/proofs/incremental", "/info", "/info/shards", "/nope"}
@@ -63,7 +106,7 @@ func genRequests(rng *cq.Rng, n int) []httpReq {
 	for i := 0; i < n; i++ {
 		if rng.Intn(6) == 0 {
 			paths := []string{"/backup", "/backups", "/backup?backupID=1", "/backup?backupID=x", "/backup?backupID=", "/backup?backupID=99999999999", "/backup?other=1", "/backups?x=1"}
-			out = append(out, httpReq{"mgmt", methods[rng.Intn(len(methods))], paths[rng.Intn(len(paths))], ""})
+			out = append(out, httpReq{"mgmt", methods[rng.Intn(len(methods))], paths[rng.Intn(len(paths))], "", "ROther N"})
 			continue
 		}
 		p := apiPaths[rng.Intn(len(apiPaths))]
@@ -72,7 +115,8 @@ func genRequests(rng *cq.Rng, n int) []httpReq {
 			m = "POST"
 		}
 		bs := bodies(p)
-		out = append(out, httpReq{"api", m, p, bs[rng.Intn(len(bs))]})
+		b := bs[rng.Intn(len(bs))]
+		out = append(out, httpReq{"api", m, p, b, classify(m, p, b)})
 	}
 	return out
 }
@@ -119,7 +163,7 @@ func httpCmd(out *cq.Out, seed uint64, tier string) {
 		k++
 		ev := []byte(fmt.Sprintf("follow-%d", k))
 		body, _ := json.Marshal(protocol.Event{Event: ev})
-		st, rb, err := do(httpReq{"api", "POST", "/events", string(body)})
+		st, rb, err := do(httpReq{"api", "POST", "/events", string(body), ""})
 		if err != nil || st != 201 {
 			return fmt.Sprintf("a valid add is answered %d (%v)", st, err)
 		}
@@ -128,7 +172,7 @@ func httpCmd(out *cq.Out, seed uint64, tier string) {
 			return "the add response does not decode"
 		}
 		q, _ := json.Marshal(protocol.MembershipQuery{Key: ev, Version: &snap.Version})
-		st, rb, err = do(httpReq{"api", "POST", "/proofs/membership", string(q)})
+		st, rb, err = do(httpReq{"api", "POST", "/proofs/membership", string(q), ""})
 		if err != nil || st != 200 {
 			return fmt.Sprintf("a valid membership query is answered %d (%v)", st, err)
 		}
@@ -146,13 +190,16 @@ func httpCmd(out *cq.Out, seed uint64, tier string) {
 		return
 	}
 	reqs := genRequests(rng, nreq)
+	var acases []string
 	for i, r := range reqs {
 		desc := map[string]interface{}{"seed": seed, "request_index": i, "mux": r.mux, "method": r.method, "path": r.path, "body": r.body}
 		if len(r.body) > 300 {
 			desc["body"] = r.body[:300] + fmt.Sprintf("...(%d bytes)", len(r.body))
 		}
 		out.Note(desc)
+		before := n.VBalloonVersion()
 		st, _, err := do(r)
+		acases = append(acases, fmt.Sprintf("(%s, %d%%nat)", r.model, n.VBalloonVersion()-before))
 		out.Case(fmt.Sprintf("req:%d", i), r.body != "")
 		cls := fmt.Sprintf("%dxx", st/100)
 		if err != nil {
@@ -183,5 +230,10 @@ func httpCmd(out *cq.Out, seed uint64, tier string) {
 		n2.VRaft().Barrier(10 * time.Second).Error()
 		n2.Close(true)
 	}
+	f, _ := os.Create(out.Dir + "/cases.v")
+	fmt.Fprintf(f, "From Coq Require Import List NArith.\nFrom QV Require Import Fsm.Api.\nImport ListNotations.\nOpen Scope N_scope.\n")
+	fmt.Fprintf(f, "Definition cases : list (request N * nat) := %s.\n", cq.List(acases))
+	fmt.Fprintf(f, "Definition R := Eval vm_compute in run_api_cases cases.\nPrint R.\n")
+	f.Close()
 	out.Sample(map[string]interface{}{"requests": nreq, "first": fmt.Sprintf("%v", reqs[0])})
 }
